@@ -12,7 +12,7 @@ open Cfi Cfi.Text Spec.C10 Spec.C01 Props.C01 Props.C06
 literals have no control characters, floats are digits, sign, separator and exponent marks,
 dates are digits and characters of the format -/
 theorem no_newline_of_domain (f : Field) (v : Val) (h : fieldInDomain f v = true)
-    (hflt : FloatFE f v)
+    (hflt : FloatFB f v)
     (hfmt : ∀ fmt fmts, f.kind = .date (fmt :: fmts) → ¬ '\n' ∈ fmt)
     (t : List Char) (ht : renderText f v = .ok t) : ¬ '\n' ∈ t := by
   by_cases hn : v.isNull = true
@@ -141,7 +141,7 @@ theorem no_newline_of_domain (f : Field) (v : Val) (h : fieldInDomain f v = true
 /-- **C10, positional text storage, from the decidable domain.** For every stream of registers
 in positional text storage whose identifier fits its window and holds no line break, whose
 fields start after the identifier window, and whose values are admitted by
-`Spec.C01.inDomain` (floats as in `FloatFE`, no empty date format for a missing date, no line
+`Spec.C01.inDomain` (floats as in `FloatFB`, no empty date format for a missing date, no line
 break in a date format): each register is one line, carries its identifier, is recognised by
 its own type, reads back to the canonical data, and every read consumes exactly what the
 corresponding write produced. -/
@@ -153,7 +153,7 @@ theorem text_positional_dom (items : List (RegDef × List Val))
     (hdate : ∀ item ∈ items, ∀ fv ∈ item.1.fields.zip item.2, ∀ fmts, fv.1.kind = .date fmts →
       (fv.2.isNull = true → ∀ fm ∈ fmts, fm ≠ []) ∧ ∀ fm rest, fmts = fm :: rest → ¬ '\n' ∈ fm)
     (hbig : ∀ item ∈ items, ∀ v ∈ item.2, ∀ n, v = .int n → n.natAbs < 10 ^ 4300)
-    (hflt : ∀ item ∈ items, ∀ fv ∈ item.1.fields.zip item.2, FloatFE fv.1 fv.2) :
+    (hflt : ∀ item ∈ items, ∀ fv ∈ item.1.fields.zip item.2, FloatFB fv.1 fv.2) :
     ∃ obs, run .text items = some obs ∧ Spec.C10.holds .text items obs = true := by
   apply text_positional items
   intro item hitem
@@ -181,7 +181,7 @@ example :
       (∀ f ∈ item.1.fields, item.1.digits ≤ f.start) ∧ ¬ '\n' ∈ item.1.ident ∧
       RegDef.isEmpty item.2 = false) ∧
     (∀ item ∈ items, Spec.C01.inDomain item.1.fields item.2 = true) ∧
-    (∀ item ∈ items, ∀ fv ∈ item.1.fields.zip item.2, FloatFE fv.1 fv.2) := by
+    (∀ item ∈ items, ∀ fv ∈ item.1.fields.zip item.2, FloatFB fv.1 fv.2) := by
   refine ⟨?_, ?_, ?_⟩
   · intro item hi
     simp only [List.mem_singleton] at hi; subst hi
@@ -200,7 +200,7 @@ example :
     · intro dec fmt sep hk
       simp only [Field.mk', Kind.flt.injEq] at hk
       obtain ⟨rfl, rfl, rfl⟩ := hk
-      exact Or.inr (Or.inr ⟨Or.inl rfl, false, _, _, rfl, Or.inl (Proofs.FloatE.wfE_of_wfn _ _ _ ⟨by decide, by decide, by decide, by decide⟩ (by decide))⟩)
+      exact Or.inr (Or.inr ⟨Or.inl rfl, false, _, _, rfl, Or.inl (Proofs.FloatE.wfB_of_wfE _ _ _ (Proofs.FloatE.wfE_of_wfn _ _ _ ⟨by decide, by decide, by decide, by decide⟩ (by decide)))⟩)
     · intro dec fmt sep hk; simp [Field.mk'] at hk
 
 end Props.C10
